@@ -1000,7 +1000,11 @@ func (e primaryMismatch) Error() string {
 // When rollbackIfNotExist is false, the caller should be careful with the txnNotFoundErr error.
 func (lr *LockResolver) getTxnStatus(bo *retry.Backoffer, txnID uint64, primary []byte,
 	callerStartTS, currentTS uint64, rollbackIfNotExist bool, forceSyncCommit bool, lockInfo *Lock) (TxnStatus, error) {
-	if s, ok := lr.getResolved(txnID); ok {
+	// A pessimistic lock that names itself as primary is only cleaned up by the CheckTxnStatus request itself
+	// (resolvePessimisticLock sends nothing for it), so a cached status of the transaction, possibly learned
+	// from another primary, must not replace the request.
+	selfPrimaryPessimisticLock := lockInfo != nil && lockInfo.IsPessimistic() && bytes.Equal(lockInfo.Key, primary)
+	if s, ok := lr.getResolved(txnID); ok && !selfPrimaryPessimisticLock {
 		return s, nil
 	}
 
